@@ -503,8 +503,8 @@ func oneRun(w *mon.W, c *mon.Case) {
 	go func() { d.peers.Wait(); close(peersDone) }()
 	select {
 	case <-peersDone:
-	case <-time.After(5 * time.Second):
-		fail("conservation", "a peer goroutine is still blocked 5 s after CloseIdleConnections: some connection was never closed")
+	case <-time.After(60 * time.Second):
+		fail("conservation", "a peer goroutine is still blocked 60 s after CloseIdleConnections: some connection was never closed")
 		return
 	}
 	log.mu.Lock()
